@@ -103,6 +103,7 @@ type Exec struct {
 	nPre map[string]int
 	nNoPanic int
 	nGuard   int
+	discardCall *ast.CallExpr // the call of the expression statement being executed (its results are discarded)
 	closureVar map[types.Object]*FuncInfo
 	aliasHook  func(*State)
 	fnValueOfCall *Term
@@ -639,7 +640,11 @@ func (x *Exec) execStmt(s *State, stmt ast.Stmt, entry *State) outcomes {
 	case *ast.BlockStmt:
 		return x.execBlock(s, st.List, entry)
 	case *ast.ExprStmt:
+		if c, ok := st.X.(*ast.CallExpr); ok {
+			x.discardCall = c
+		}
 		x.evalMulti(s, st.X)
+		x.discardCall = nil
 		return outcomes{normal: []*State{s}}
 	case *ast.DeclStmt:
 		gd := st.Decl.(*ast.GenDecl)
